@@ -86,7 +86,7 @@ def write(path, text):
 
 # ------------------------------------------------------------------------------------------------ design runs
 
-DESIGN_INVS = ["NoCrash", "NoLostTopic", "LockInv", "NoLeakedPublisher", "TopicAgreement", "IndexerInv"]
+DESIGN_INVS = ["NoCrash", "NoLostTopic", "LockInv", "NoLeakedPublisher", "TopicAgreement", "IndexerInv", "NoDrainBlock"]
 
 
 def design_configs(tier):
@@ -146,7 +146,7 @@ def sub_design(ctx):
         log("design run %s: %s hold under weak fairness (%d distinct states)" % (name, ", ".join(props), r["distinct"]))
     # vacuity: every label of the design is taken in some configuration (deviation-only labels excepted)
     dead = [lab for lab, n in reached.items() if n == 0 and lab not in ("pt_del", "c_inst", "g_drain", "el_i_unlock0")]
-    never = [lab for lab in ("el_u_close", "ce_sent", "pt_closeall", "pt_chk", "co_err", "co_closed", "g_lock", "u_lock", "tl_unlock",
+    never = [lab for lab in ("el_u_close", "ce_sent", "pt_closeall", "pt_chk", "co_err", "co_closed", "g_lock", "u_lock", "tl_sweep",
                              "ih_q", "im_q", "im_index") if reached.get(lab, 0) == 0]
     if dead or never:
         raise Infra("design runs are vacuous for labels %s" % sorted(set(dead + never)))
@@ -193,6 +193,7 @@ def judge(d, known, drop_invs=()):
     vlib.stage_spec(d)
     invs = [i for i in ("NoLostTopic", "LockInv", "RealNoCrash", "Coverage") if i not in drop_invs]
     consts = dict(NTopics=max(2, hdr.get("topics", 1)), NClients=hdr["clients"], Rounds=hdr["rounds"], MaxEvents=100000, MaxPolls=100000,
+                  MaxTicks=100000,
                   Api="TRUE" if hdr["api"] else "FALSE", Known=known_set(known), SpinTopics="{2}", BufCap=100000, RespCap=100000,
                   TraceMode="TRUE")
     name = "judge%d" % (int(time.time() * 1e6) % 10 ** 9)
@@ -287,8 +288,8 @@ def classify(binp, plan, known):
     res = c["result"] or {}
     if cls == "clean" and res.get("spin"):
         cls, detail = "spin", json.dumps(res["spin"])
-    if cls == "clean" and res.get("stuck"):
-        cls, detail = "stuck", "; ".join(res["stuck"])
+    if res.get("stuck") and not c["panic"]:  # goroutines blocked at quiescence: that is the outcome, whatever the trace looks like
+        cls, detail = "stuck", "; ".join(res["stuck"]) + " [trace: %s %s]" % (cls, detail)
     if c["panic"] and cls != "crash":
         cls, detail = "reject", "child died of '%s' but the trace does not explain it (%s %s)" % (c["panic"], cls, detail)
     if res.get("recErrors"):
@@ -431,6 +432,51 @@ def sub_indexer(ctx):
             log("indexer stress (%s): %d heights indexed once each in order%s" % (tag, n, "" if res["returned"] else " (OnStart blocked at Stop: D27)"))
 
 
+# ------------------------------------------------------------------------------------------------ timer expiry (hook H4)
+
+SIG_DRAIN = "Deadlock/GetFilterChanges-blocks-on-drained-deadline-timer-holding-filtersMu"
+
+
+def sub_timers(ctx):
+    """timeoutLoop / deadline timers (hook H4 shortens the 5 min deadline): the schedule 'a sweep finds several filters
+    expired while their owners poll them' steered on the real code, 3x; blocked clients at quiescence = deadlock."""
+    v, w, binp = ctx["v"], ctx["w"], ctx["bin"]
+    d = w.sub("timers")
+    known = (ctx["present"] & set(ALL[:4])) | {"D25"}
+
+    def once(k):
+        plan = dict(mode="expiry", api=True, clients=5, rounds=1, topics=1, events=0, polls=1, seed=ctx["seed"] * 10 + k, deadlineMs=40,
+                    steps=[], out=os.path.join(d, "expiry%d" % k))
+        return plan, classify(binp, plan, known)
+
+    outs = pmap(once, range(3), workers=3)
+    ctx["replayed"] += 3
+    classes = [o["cls"] for _, o in outs]
+    ctx["samples"].append(dict(scenario="expiry sweep vs GetFilterChanges", real_outcomes=classes, detail=outs[0][1]["detail"][:300]))
+    nstuck = classes.count("stuck")
+    if 0 < nstuck < 3:  # e.g. only one filter expired in a sweep: try again before judging
+        more = pmap(lambda k: once(k + 3), range(3), workers=3)
+        ctx["replayed"] += 3
+        outs += more
+        classes = [o["cls"] for _, o in outs]
+        nstuck = classes.count("stuck")
+        if nstuck < 3:
+            raise Infra("expiry scenario blocked in %d of %d runs only: not reproducible (%s)" % (nstuck, len(outs), classes))
+    if nstuck:
+        plan, o = [x for x in outs if x[1]["cls"] == "stuck"][0]
+        rp = vlib.save_replay(ctx["pid"], "timer-drain-deadlock", [([json.dumps(dict(kind="run", expect=o["cls"], plan=dict(plan, out="replayed"), known=sorted(known)))], "case.json"),
+                              (os.path.join(plan["out"], "trace.ndjson"), "trace.ndjson")],
+                              "clients blocked for ever in GetFilterChanges (filtersMu held) after timeoutLoop's sweep: " + o["detail"])
+        v.violation(SIG_DRAIN, rp, "a sweep of timeoutLoop drained the deadline timers of expired filters but left the filters in api.filters; GetFilterChanges "
+                    "on such a filter runs `if !f.deadline.Stop() { <-f.deadline.C }` under filtersMu and blocks for ever: every filter request hangs "
+                    "[real outcome %d/%d runs: %s]" % (nstuck, len(outs), o["detail"][:300]))
+        log("timer expiry: DEADLOCK on the real code in %d/%d runs: %s" % (nstuck, len(outs), o["detail"][:160]))
+        return
+    for plan, o in outs:
+        handle_outcome(ctx, o, plan, "expiry-%s" % os.path.basename(plan["out"]), known)
+    log("timer expiry: sweep vs. polling owners steered 3x on the real code: %s (expired filters are gone when the pollers get the lock)" % classes)
+
+
 # ------------------------------------------------------------------------------------------------ simulated schedules
 
 def nontrivial_key(d):
@@ -478,7 +524,7 @@ def handle_outcome(ctx, o, plan, tag, known):
     key = (o["cls"], tuple(o["dev_used"]))
     if o["cls"] != "reject" and key in ctx["reported"]:
         return
-    rp = vlib.save_replay(ctx["pid"], tag, [([json.dumps(dict(kind="run", plan=dict(plan, out="replayed"), known=sorted(known)))], "case.json"),
+    rp = vlib.save_replay(ctx["pid"], tag, [([json.dumps(dict(kind="run", expect=o["cls"], plan=dict(plan, out="replayed"), known=sorted(known)))], "case.json"),
                                             (os.path.join(plan["out"], "trace.ndjson"), "trace.ndjson")],
                           "%s: real execution judged '%s' (%s), deviations exercised %s" % (tag, o["cls"], o["detail"], o["dev_used"]))
     if o["cls"] == "reject":
@@ -543,11 +589,11 @@ def sub_stress(ctx):
     known = (ctx["present"] & set(ALL[:4])) | {"D25"}
     jobs = []
     for i in range(sz["stress"]):
-        jobs.append((binp, "stress-%d" % i, dict(mode="stress", api=(i % 2 == 1), clients=2 + i % 3, rounds=2 + (i // 3) % 2, topics=1 + (i // 2) % 2,
+        jobs.append((binp, "stress-%d" % i, dict(mode="stress", api=(i % 2 == 1), deadlineMs=[0, 12, 6][(i // 2) % 3] if i % 2 == 1 else 0, clients=2 + i % 3, rounds=2 + (i // 3) % 2, topics=1 + (i // 2) % 2,
                                                 events=sz["stress_events"], polls=2, seed=seed * 100003 + i, steps=[], out=os.path.join(d, "s%d" % i))))
     if ctx.get("bin_race"):
         for i in range(sz["race"]):
-            jobs.append((ctx["bin_race"], "race-%d" % i, dict(mode="stress", api=(i % 2 == 1), clients=3, rounds=3, topics=2, events=sz["stress_events"],
+            jobs.append((ctx["bin_race"], "race-%d" % i, dict(mode="stress", api=(i % 2 == 1), deadlineMs=10 if i % 2 == 1 else 0, clients=3, rounds=3, topics=2, events=sz["stress_events"],
                                                              polls=2, seed=seed * 200003 + i, steps=[], out=os.path.join(d, "r%d" % i))))
 
     def one(job):
@@ -576,7 +622,13 @@ def sub_stress(ctx):
     if races:
         log("stress under -race: %d race-detector report(s) -- evidence only" % races)
     # rejected traces: behaviour of the real code outside the specification; a verdict only when it repeats
+    conf_reported = set()
     for tag, detail, plan, rp in ctx["rejects"]:
+        nums = re.findall(r"\d+", detail)
+        first = trace_line(plan["out"], int(nums[0])) if nums else ""
+        lab0 = json.loads(first).get("l", "?") if first.startswith("{") else "?"
+        if lab0 in conf_reported:  # the same step rejected in another run: already reported
+            continue
         again = 0
         for k in range(2):
             o = classify(binp, dict(plan, out=plan["out"] + "-again%d" % k), known)
@@ -584,6 +636,7 @@ def sub_stress(ctx):
         line = trace_line(plan["out"], int(re.findall(r"\d+", detail)[0])) if re.findall(r"\d+", detail) else ""
         if again:
             lab = json.loads(line).get("l", "?") if line.startswith("{") else "?"
+            conf_reported.add(lab)
             v.violation("Conformance/%s" % lab, rp, "%s: recorded interleaving is not a behaviour of the specification at %s: %s (rejected again in %d/2 re-runs)"
                         % (tag, detail, line[:200], again))
         else:
@@ -592,7 +645,7 @@ def sub_stress(ctx):
     for tag, detail, plan in ctx["stalls"]:
         again = sum(classify(binp, dict(plan, out=plan["out"] + "-again%d" % k), known)["cls"] == "stuck" for k in range(2))
         if again:
-            rp = vlib.save_replay(ctx["pid"], tag, [([json.dumps(dict(kind="run", plan=dict(plan, out="replayed"), known=sorted(known)))], "case.json")],
+            rp = vlib.save_replay(ctx["pid"], tag, [([json.dumps(dict(kind="run", expect="stuck", plan=dict(plan, out="replayed"), known=sorted(known)))], "case.json")],
                                   "client goroutines blocked at quiescence: " + detail)
             v.violation("Deadlock/" + re.sub(r"[^A-Za-z]+", "-", detail)[:60], rp, "%s: %s (again in %d/2 re-runs)" % (tag, detail, again))
         else:
@@ -655,7 +708,7 @@ def sub_selftest(ctx):
         log("binding self-test: " + s)
 
 
-SUBCHECKS = [sub_design, sub_deviations, sub_indexer, sub_simulate, sub_stress, sub_selftest]
+SUBCHECKS = [sub_design, sub_deviations, sub_indexer, sub_timers, sub_simulate, sub_stress, sub_selftest]
 
 
 
@@ -728,7 +781,7 @@ def do_replay(pid, w, replay):
     else:
         o = classify(binp, plan, case.get("known") or ALL[:4])
         log("replay: real outcome %s %s (deviations exercised %s)" % (o["cls"], o["detail"], o["dev_used"]))
-        bad = o["cls"] != "clean"
+        bad = o["cls"] == case["expect"] if case.get("expect") in ("stuck", "crash", "lost", "spin", "reject") else o["cls"] != "clean"
     if bad:
         log("VIOLATION property=%s replay=%s" % (pid, replay))
         return 1
@@ -772,7 +825,7 @@ def check_c20(pid, tier, seed, replay):
         v.cov["exhaustive"] = False
         v.assumptions = ["clause (a) only; clauses (b),(c) are bound by the EthTx/FeeMarket checks, clause (d) is out of reach",
                          "CometBFT's WSClient Subscribe/Unsubscribe calls are non-blocking no-ops (loopback endpoint that answers nothing)",
-                         "filter deadline timers (5 min) never fire in the bound runs: timeoutLoop / timer stop-or-drain is design-level only",
+                         "filter deadline shortened to 5-40 ms through hook H4 in the timer scenarios and in two thirds of the API stress runs",
                          "NewFilter (logs) and the rpc.Notifier subscriptions share the modelled structure but are not driven",
                          "memEventBus critical sections are atomic steps (no blocking operation inside, verified by reading)"]
         return v.finish()
